@@ -510,11 +510,38 @@ def _expm1_case(ex, term, f, w, bits):
             'ulp': float(ulps(rho, bits)), 'ulp_exact': ulps(rho, bits), 'degree': (N.deg(), D.deg())}
 
 
+# ---------------------------------------------------------------- hypot: exactly sqrt(x^2 + y^2) as a real function
+def analyse_hypot(mod, fname, base, bits):
+    term, w = lane_term(mod, fname)
+    ex = RFN.Extract()
+    cs = strip_special(ex.cases(term), ex)
+    if len(cs) != 1:
+        raise Mismatch('%d arithmetic cases, the template has one' % len(cs))
+    f = cs[0][1]
+    ats = sorted(f.atoms())
+    if len(ats) != 1 or f.den != RFN.p_const(1) or f.num != RFN.p_atom(ats[0]):
+        raise Mismatch('the result is not a bare square root')
+    t = T.single_term(ex.atoms[ats[0]])
+    if t is None or not t.name.startswith(('sqrt', 'x86.sqrt', 'call:llvm.sqrt', 'llvm.sqrt')):
+        raise Mismatch('the result is not a square root')
+    inner = ex.cases(t.ops[0])
+    if len(inner) != 1 or inner[0][1].den != RFN.p_const(1):
+        raise Mismatch('the radicand is not a polynomial')
+    pn = inner[0][1].num
+    args_ = sorted(RFN.p_atoms(pn))
+    ok = len(args_) == 2 and all(T.single_term(ex.atoms[a]) is not None and T.single_term(ex.atoms[a]).kind == 'arg' for a in args_) and \
+        pn == {((args_[0], 2),): Fr(1), ((args_[1], 2),): Fr(1)}
+    if not ok:
+        # the real function is not sqrt(x^2 + y^2): an unbounded relative error somewhere
+        return {'radicand': 'not x^2 + y^2', 'kernel_rel_err': 1.0, 'const_rel_err': 0.0, 'ulp': float('inf'), 'ulp_exact': Fr(10 ** 9)}
+    return {'radicand': 'x^2 + y^2 (exact)', 'kernel_rel_err': 0.0, 'const_rel_err': 0.0, 'ulp': 0.0, 'ulp_exact': Fr(0)}
+
+
 FUNCS = [('exp', analyse_exp, 'e'), ('exp2', analyse_exp, '2'), ('exp10', analyse_exp, '10'),
          ('log', analyse_log, 'e'), ('log2', analyse_log, '2'), ('log10', analyse_log, '10'),
          # log1p(x) = k ln 2 + log m with 1 + x = m 2^k (the correction term for the rounding of 1 + x is zero in the real reading)
          ('log1p', analyse_log, 'e'),
-         ('expm1', analyse_expm1, 'e')]
+         ('expm1', analyse_expm1, 'e'), ('hypot', analyse_hypot, None)]
 
 
 def applicable(fn, bits, cfgname):
